@@ -23,8 +23,13 @@ import (
 // (so "pause while an attempt is in flight" is a scripted schedule). Real timers, ms-scale delays.
 //
 //   reset <I_ms> <M_ms> <mnum> <mden> <jnum> <jden> <maxAttempts>   new manager + reconnector        -> ok
-//   schedule | pause | resume | clearall | cancel | stop | disconnectall                            -> ok
-//   wait            wait for the next attempt (= Dial invoked by the reconnect callback)
+//                   (config = peer.DefaultReconnectConfig() with these fields overridden, as the agent builds it)
+//   Ops that concern one peer address take an optional trailing address number (default 0; ten
+//   persistent peers 0..9 are configured): schedule, cancel, wait, release, preset.
+//   schedule [a] | cancel [a] | pause | resume | clearall | stop | disconnectall                    -> ok
+//   preset <n> [a]  (only while paused) set the address's attempt counter to n and its next delay to the
+//                   n-th element of the backoff sequence, as n consecutive failures would have    -> ok | notpaused
+//   wait [a]        wait for the next attempt of that address (= Dial invoked by the reconnect callback)
 //                   -> attempt n=<attempts> d=<ns> early=<0|1> late=<0|1> paused=<0|1> | none
 //                      n      GetAttempts() when the dial starts
 //                      d      un-jittered delay (state.nextDelay) read from the reconnector at the
@@ -34,13 +39,15 @@ import (
 //                      late   more than (1+j)*d + slack after it (generous slack)
 //                      paused IsPaused() was true when the dial started
 //                   none = no attempt within (1+j)*M + slack
-//   release fail|ok the oldest blocked dial fails / succeeds (handshake with a remote manager); returns after
+//   release fail|ok [a] the oldest blocked dial of that address fails / succeeds (handshake with a remote manager); returns after
 //                   the reconnector has processed the callback's result                             -> ok | noflight
 
 const (
-	c31Addr  = "peer-a"
 	c31Slack = 300 * time.Millisecond
+	c31NAddr = 10
 )
+
+func c31AddrName(i int) string { return fmt.Sprintf("peer-%d", i) }
 
 type c31Event struct {
 	at     time.Time
@@ -54,20 +61,26 @@ type c31Snap struct {
 	timer  *time.Timer
 }
 
+// c31Peer is the harness's bookkeeping for one peer address.
+type c31Peer struct {
+	addr      string
+	gates     []chan bool
+	events    chan c31Event
+	cbDone    chan c31Snap
+	armRef    time.Time
+	armD      time.Duration
+	armStalls int64 // stall counter when the timer was armed
+}
+
 type c31World struct {
 	m, remote *peer.Manager
 	r         *peer.Reconnector
+	rc        peer.ReconnectConfig
 	jitter    float64
 	maxDelay  time.Duration
 
-	mu      sync.Mutex
-	gates   []chan bool
-	events  chan c31Event
-	cbDone  chan c31Snap
-	armRef  time.Time
-	armD    time.Duration
-	armStalls int64 // stall counter when the timer was armed
-	closers []func()
+	mu    sync.Mutex
+	peers map[string]*c31Peer
 }
 
 var c31W *c31World
@@ -92,11 +105,12 @@ var c31MonitorOnce sync.Once
 
 func (w *c31World) dial(ctx context.Context, addr string) (transport.PeerConn, error) {
 	ev := c31Event{at: time.Now(), n: w.r.GetAttempts(addr), paused: w.r.IsPaused()}
+	p := w.peers[addr]
 	gate := make(chan bool, 1)
 	w.mu.Lock()
-	w.gates = append(w.gates, gate)
+	p.gates = append(p.gates, gate)
 	w.mu.Unlock()
-	w.events <- ev
+	p.events <- ev
 	var ok bool
 	select {
 	case ok = <-gate:
@@ -115,9 +129,9 @@ func (w *c31World) dial(ctx context.Context, addr string) (transport.PeerConn, e
 	return a, nil
 }
 
-func (w *c31World) noteArm(ref time.Time) {
-	if exists, _, next, _ := w.r.VerifC31State(c31Addr); exists {
-		w.armRef, w.armD, w.armStalls = ref, next, c31Stalls.Load()
+func (w *c31World) noteArm(p *c31Peer, ref time.Time) {
+	if exists, _, next, _ := w.r.VerifC31State(p.addr); exists {
+		p.armRef, p.armD, p.armStalls = ref, next, c31Stalls.Load()
 	}
 }
 
@@ -131,14 +145,16 @@ func c31Reset(f []string) string {
 		must(err)
 		return v
 	}
-	w := &c31World{events: make(chan c31Event, 64), cbDone: make(chan c31Snap, 64)}
-	rc := peer.ReconnectConfig{
-		InitialDelay: time.Duration(num(1)) * time.Millisecond,
-		MaxDelay:     time.Duration(num(2)) * time.Millisecond,
-		Multiplier:   float64(num(3)) / float64(num(4)),
-		Jitter:       float64(num(5)) / float64(num(6)),
-		MaxAttempts:  num(7),
-	}
+	w := &c31World{peers: map[string]*c31Peer{}}
+	// As the agent does: start from the package defaults and override the configured fields, so that
+	// whatever else the defaults switch on is live here too.
+	rc := peer.DefaultReconnectConfig()
+	rc.InitialDelay = time.Duration(num(1)) * time.Millisecond
+	rc.MaxDelay = time.Duration(num(2)) * time.Millisecond
+	rc.Multiplier = float64(num(3)) / float64(num(4))
+	rc.Jitter = float64(num(5)) / float64(num(6))
+	rc.MaxAttempts = num(7)
+	w.rc = rc
 	w.jitter, w.maxDelay = rc.Jitter, rc.MaxDelay
 	var lid, rid identity.AgentID
 	lid[0], rid[0] = 0x31, 0x32
@@ -147,11 +163,15 @@ func c31Reset(f []string) string {
 	cfg.KeepaliveInterval = time.Hour
 	cfg.ReconnectConfig = rc
 	w.m = peer.NewManager(cfg)
-	w.m.AddPeer(peer.PeerInfo{Address: c31Addr, Persistent: true})
+	for i := 0; i < c31NAddr; i++ {
+		a := c31AddrName(i)
+		w.peers[a] = &c31Peer{addr: a, events: make(chan c31Event, 64), cbDone: make(chan c31Snap, 64)}
+		w.m.AddPeer(peer.PeerInfo{Address: a, Persistent: true})
+	}
 	w.r = peer.NewReconnector(rc, func(addr string) error {
 		err := w.m.VerifC31HandleReconnect(addr) // the real callback
 		ex, _, next, t := w.r.VerifC31State(addr)
-		w.cbDone <- c31Snap{ex, next, t}
+		w.peers[addr].cbDone <- c31Snap{ex, next, t}
 		return err
 	})
 	w.m.VerifC31SetReconnector(w.r)
@@ -166,10 +186,12 @@ func c31Reset(f []string) string {
 
 func (w *c31World) shutdown() {
 	w.mu.Lock()
-	for _, g := range w.gates {
-		g <- false
+	for _, p := range w.peers {
+		for _, g := range p.gates {
+			g <- false
+		}
+		p.gates = nil
 	}
-	w.gates = nil
 	w.mu.Unlock()
 	w.r.Stop()
 	done := make(chan struct{})
@@ -178,6 +200,23 @@ func (w *c31World) shutdown() {
 	case <-done:
 	case <-time.After(2 * time.Second):
 	}
+}
+
+// c31Backoff: the n-th element of the backoff sequence, computed the way n consecutive failures
+// compute it (used only to put the reconnector into the state "n failures so far" quickly).
+func c31Backoff(rc peer.ReconnectConfig, n int) time.Duration {
+	d := rc.InitialDelay
+	for i := 0; i < n; i++ {
+		nd := time.Duration(float64(d) * rc.Multiplier)
+		if nd > rc.MaxDelay {
+			nd = rc.MaxDelay
+		}
+		if nd == d && i > 0 {
+			return d // fixed point (cap reached, or multiplier 1)
+		}
+		d = nd
+	}
+	return d
 }
 
 func c31Run(line string) string {
@@ -189,12 +228,23 @@ func c31Run(line string) string {
 	if w == nil {
 		return "no-world"
 	}
+	// optional trailing address number
+	peerArg := func(i int) *c31Peer {
+		a := 0
+		if len(f) > i {
+			v, err := strconv.Atoi(f[i])
+			must(err)
+			a = v
+		}
+		return w.peers[c31AddrName(a)]
+	}
 	switch f[0] {
 	case "schedule":
+		p := peerArg(1)
 		ref := time.Now()
-		w.r.Schedule(c31Addr)
+		w.r.Schedule(p.addr)
 		if !w.r.IsPaused() {
-			w.noteArm(ref)
+			w.noteArm(p, ref)
 		}
 		return "ok"
 	case "pause":
@@ -210,31 +260,40 @@ func c31Run(line string) string {
 		w.r.ResetAll()
 		return "ok"
 	case "cancel":
-		w.r.Cancel(c31Addr)
+		w.r.Cancel(peerArg(1).addr)
 		return "ok"
 	case "stop":
 		w.r.Stop()
 		return "ok"
+	case "preset":
+		n, err := strconv.Atoi(f[1])
+		must(err)
+		p := peerArg(2)
+		if !w.r.IsPaused() || !w.r.VerifC31Preset(p.addr, n, c31Backoff(w.rc, n)) {
+			return "notpaused"
+		}
+		return "ok"
 	case "wait":
+		p := peerArg(1)
 		limit := time.Duration(float64(w.maxDelay)*(1+w.jitter)) + c31Slack
 		for try := 0; ; try++ {
 			stalls := c31Stalls.Load()
 			select {
-			case ev := <-w.events:
-				gap := ev.at.Sub(w.armRef)
-				lo := time.Duration(float64(w.armD)*(1-w.jitter)) - time.Microsecond
-				hi := time.Duration(float64(w.armD)*(1+w.jitter)) + c31Slack
+			case ev := <-p.events:
+				gap := ev.at.Sub(p.armRef)
+				lo := time.Duration(float64(p.armD)*(1-w.jitter)) - time.Microsecond
+				hi := time.Duration(float64(p.armD)*(1+w.jitter)) + c31Slack
 				b := func(x bool) int {
 					if x {
 						return 1
 					}
 					return 0
 				}
-				late := gap > hi && c31Stalls.Load() == w.armStalls
+				late := gap > hi && c31Stalls.Load() == p.armStalls
 				if os.Getenv("VERIF_C31_DEBUG") != "" {
-					fmt.Fprintf(os.Stderr, "c31 debug: gap=%v d=%v stalls=%d armStalls=%d\n", gap, w.armD, c31Stalls.Load(), w.armStalls)
+					fmt.Fprintf(os.Stderr, "c31 debug: gap=%v d=%v stalls=%d armStalls=%d\n", gap, p.armD, c31Stalls.Load(), p.armStalls)
 				}
-				return fmt.Sprintf("attempt n=%d d=%d early=%d late=%d paused=%d", ev.n, w.armD.Nanoseconds(), b(gap < lo), b(late), b(ev.paused))
+				return fmt.Sprintf("attempt n=%d d=%d early=%d late=%d paused=%d", ev.n, p.armD.Nanoseconds(), b(gap < lo), b(late), b(ev.paused))
 			case <-time.After(limit):
 				if c31Stalls.Load() != stalls && try < 8 {
 					continue // the process was frozen meanwhile: "nothing happened" proves nothing, wait again
@@ -243,23 +302,24 @@ func c31Run(line string) string {
 			}
 		}
 	case "release":
+		p := peerArg(2)
 		w.mu.Lock()
-		if len(w.gates) == 0 {
+		if len(p.gates) == 0 {
 			w.mu.Unlock()
 			return "noflight"
 		}
-		gate := w.gates[0]
-		w.gates = w.gates[1:]
+		gate := p.gates[0]
+		p.gates = p.gates[1:]
 		w.mu.Unlock()
 		// drain stale completion signals
-		for len(w.cbDone) > 0 {
-			<-w.cbDone
+		for len(p.cbDone) > 0 {
+			<-p.cbDone
 		}
 		ref := time.Now()
 		gate <- f[1] == "ok"
 		var snap c31Snap
 		select {
-		case snap = <-w.cbDone:
+		case snap = <-p.cbDone:
 		case <-time.After(5 * time.Second):
 			return "callback-did-not-return"
 		}
@@ -277,7 +337,7 @@ func c31Run(line string) string {
 			changed := false
 			deadline := time.Now().Add(limit)
 			for time.Now().Before(deadline) {
-				ex, _, _, t := w.r.VerifC31State(c31Addr)
+				ex, _, _, t := w.r.VerifC31State(p.addr)
 				if ex != ex0 || t != t0 {
 					changed = true
 					break
@@ -288,11 +348,12 @@ func c31Run(line string) string {
 				break
 			}
 		}
+		time.Sleep(time.Millisecond)
 		// Whatever timer is armed now was armed after `ref` (by the manager's own Schedule inside the
 		// callback and/or by the reconnector afterwards) with the delay the state held when the callback
 		// returned (read then: once the timer fires the delay is already the next one).
 		if f[1] != "ok" && !paused && snap.exists {
-			w.armRef, w.armD, w.armStalls = ref, snap.next, c31Stalls.Load()
+			p.armRef, p.armD, p.armStalls = ref, snap.next, c31Stalls.Load()
 		}
 		return "ok"
 	}
@@ -319,8 +380,74 @@ func init() {
 				}
 				jit := [][2]int{{0, 1}, {1, 10}, {1, 5}, {1, 2}}[r.intn(4)]
 				maxAtt := r.pick(0, 0, 0, 2, 3)
+				kind := r.intn(10)
+				if i < 3 {
+					kind = 7 + i // every run has a long failure run, a preset case and a multi-address case
+				}
+				if kind >= 7 {
+					maxAtt = 0
+				}
+				switch kind {
+				case 7: // ms-scale delays: 100 consecutive failures cost well under a second
+					I, M = r.pick(1, 2), r.pick(4, 6)
+					mult = [][2]int{{2, 1}, {3, 1}, {3, 2}}[r.intn(3)]
+					jit = [][2]int{{0, 1}, {1, 5}}[r.intn(2)]
+				case 8:
+					I, M = r.pick(1, 2), r.pick(10, 20)
+					mult = [][2]int{{2, 1}, {3, 1}, {3, 2}, {5, 4}}[r.intn(4)]
+					jit = [][2]int{{0, 1}, {1, 5}}[r.intn(2)]
+				case 9:
+					I, M = 20, 40
+					jit = [][2]int{{0, 1}, {1, 5}}[r.intn(2)]
+				}
 				fmt.Fprintf(w, "reset %d %d %d %d %d %d %d\n", I, M, mult[0], mult[1], jit[0], jit[1], maxAtt)
-				switch r.intn(7) {
+				switch kind {
+				case 7: // a long outage: the cap region is exercised for dozens of consecutive attempts
+					p("schedule")
+					for k := 0; k < r.pick(60, 80, 100); k++ {
+						p("wait")
+						p("release fail")
+					}
+					p("wait")
+					p("release ok")
+					p("wait")
+				case 8: // the delay computation far out: attempt counter preset to 30 .. 1000 failures
+					n := r.pick(30, 40, 63, 64, 100, 1000)
+					p("schedule")
+					p("pause")
+					fmt.Fprintf(w, "preset %d\n", n)
+					p("resume")
+					p("schedule")
+					p("wait")
+					p("release fail")
+					p("wait")
+					p("release fail")
+					p("wait")
+				case 9: // many peers reconnecting at once with slow dials; pause while they are in flight
+					na := r.pick(6, 7, 8, 10)
+					for a := 0; a < na; a++ {
+						fmt.Fprintf(w, "schedule %d\n", a)
+					}
+					for a := 0; a < na; a++ {
+						fmt.Fprintf(w, "wait %d\n", a)
+					}
+					p(r.pickS("pause", "disconnectall"))
+					for a := 0; a < na; a++ {
+						fmt.Fprintf(w, "release fail %d\n", a)
+					}
+					for _, a := range []int{na - 1, na - 2, 0} {
+						fmt.Fprintf(w, "wait %d\n", a) // nothing may START while paused
+					}
+					p("resume")
+					fmt.Fprintf(w, "wait %d\n", na-1)
+					for a := 0; a < na; a++ {
+						fmt.Fprintf(w, "schedule %d\n", a)
+					}
+					for a := 0; a < na; a++ {
+						fmt.Fprintf(w, "wait %d\n", a)
+					}
+					fmt.Fprintf(w, "release ok %d\n", na-1)
+					fmt.Fprintf(w, "wait %d\n", na-1)
 				case 0: // long run of failures up to (and past) the cap, then success
 					p("schedule")
 					for k := 0; k < r.pick(4, 5, 6); k++ {
